@@ -680,6 +680,54 @@ fn header_body(ch: &Chooser, shape: &HeaderShape) -> Outcome {
     Ok(())
 }
 
+/// Every sequence of up to three `write_alignment_record` calls on ONE writer over accepted records and
+/// one record per rejection reason (see `gsam::wseq`): rejected writes return `Err` and leave nothing
+/// behind; the file holds exactly the accepted records.
+fn wseq_body(ch: &Chooser, ops: &[(&'static str, GRec)], header: &sam::Header, fmts: &[Fmt]) -> Outcome {
+    const POS: [&str; 3] = ["op1", "op2", "op3"];
+    let fmt = *ch.pick_free("target", fmts);
+    let mut idx = Vec::new();
+    for p in POS {
+        let k = ch.free(p, ops.len() + 1);
+        if k == 0 {
+            break;
+        }
+        idx.push(k - 1);
+    }
+    let seq: Vec<&GRec> = idx.iter().map(|&i| &ops[i].1).collect();
+    let labels: Vec<&str> = idx.iter().map(|&i| ops[i].0).collect();
+    let describe = || {
+        let recs: Vec<String> = seq.iter().map(|g| g.render()).collect();
+        format!("3 references; one {fmt:?} writer; write_alignment_record x [{}]: {}", labels.join(", "), recs.join(" | "))
+    };
+    ch.desc(|| describe());
+    match gsam::wseq::check_ops(fmt, header, 3, &seq) {
+        Ok(o) => {
+            ch.obs_hash(&o);
+            if o.accepted.windows(2).any(|w| !w[0] && w[1]) {
+                ch.tag("writer: accepted write directly after a rejected one");
+            }
+            ch.steps(idx.len() as u64 + 9);
+            Ok(())
+        }
+        Err(f) => Err(Violation::new(
+            format!("stage=writer-seq format={} what={} field={} after-reject={}", FMT_NAME(fmt), f.what, f.field, f.after_reject),
+            describe(),
+            f.expected,
+            f.observed,
+        )),
+    }
+}
+
+#[allow(non_snake_case)]
+fn FMT_NAME(f: Fmt) -> &'static str {
+    match f {
+        Fmt::Sam => "sam",
+        Fmt::Bam(Container::Raw) => "bam-raw",
+        Fmt::Bam(Container::Bgzf) => "bam-bgzf",
+    }
+}
+
 fn main() {
     unsafe {
         libc::mallopt(libc::M_MMAP_THRESHOLD, 32 << 20);
@@ -693,6 +741,10 @@ fn main() {
              headers: 0..3 @SQ x 0..2 @RG x 0..3 @PG x 0..2 @CO (free) with every line k deviations from its default over \
              standard/user tags, LN bounds, tag orders, line orders and invalid shapes, with/without a following record; \
              distinct = distinct decoded contents observed",
+        );
+        ctx.rule(
+            "writer sequences: every sequence of 0..3 write_alignment_record calls on one sam::io::Writer over 4 accepted records \
+             and one record per rejection reason (29 operations): the text holds exactly the accepted records",
         );
         ctx.rule(
             "reuse: every ordered pair and triple over 20 records differing in which optional fields are present x {SAM, BAM}, \
@@ -710,6 +762,12 @@ fn main() {
             nrec_free,
         };
         let _: Option<GHeader> = None;
+        // accepted and rejected writes interleaved on one writer
+        {
+            let ops = gsam::wseq::op_set();
+            let h3 = std_header(3);
+            ctx.harness(Config::new("sam_writer_sequences", 0), |ch| wseq_body(ch, &ops, &h3, &[Fmt::Sam]));
+        }
         // field-presence transitions between consecutive records, every reader entry point
         {
             let set = reuse::record_set();
